@@ -120,6 +120,17 @@ func c0910(args []string) error {
 			if vi > 0 && string(pj) != string(want) {
 				bad("children", json.RawMessage(pj), json.RawMessage(want))
 			}
+			// ForEach yields the parts in document order and stops when asked to (also across nested collections)
+			var seen []geojson.Object
+			real.ForEach(func(g geojson.Object) bool { seen = append(seen, g); return true })
+			for stop := 1; stop <= len(seen) && stop <= 3; stop++ {
+				facts++
+				n := 0
+				ret := real.ForEach(func(g geojson.Object) bool { n++; return n < stop })
+				if n != stop || ret {
+					bad("foreach-stop", fmt.Sprintf("callbacks=%d returned=%v", n, ret), fmt.Sprintf("callbacks=%d returned=false", stop))
+				}
+			}
 			coll, isColl := real.(geojson.Collection)
 			if f, ok := real.(*geojson.Feature); ok {
 				coll, isColl = f.Base().(geojson.Collection)
